@@ -10,7 +10,7 @@ from pyvc.libmodels import _M
 LEVEL = 'proof'
 TRUSTED = ['A-TYPES: consistency levels / fetch sizes are ints or None, policies are opaque objects',
            'the ResponseFuture constructor is replaced by a recorder of its arguments (its behaviour is C14-C17)',
-           'encoding of the message fields onto the wire is C03']
+           'encoding of the message fields onto the wire is C03\'s contract; re-discharged here for the option fields on v2 / v4 / v5 (other versions and options: C03)']
 EXPLANATION = 'symbolic option lattice (every statement/profile/session option set or unset at once) through the real Session._create_response_future and the real message constructors'
 
 SQ = 'cassandra.cluster.Session._create_response_future'
@@ -302,3 +302,13 @@ def profile_init(vc):
         vc.check('default/timeout-10s', a.get('request_timeout') == 10.0)
     if 'continuous_paging_options' not in given:
         vc.check('default/no-continuous-paging', a.get('continuous_paging_options') is None)
+
+
+# "... and the encoded request carries exactly those values": the message attributes checked above reach the wire through the send_body methods whose layout is
+# C03's contract.  It is re-discharged here for the option fields this property is about (consistency, serial consistency, page size, client timestamp) on a
+# protocol without (v2), with (v4) and with wide (v5) flags.
+from contracts import c03_requests as _C03
+for _pv in (2, 4, 5):
+    _C03._mk_query_like('QUERY', _pv, prop='C46', opt_fn=_C03.statement_option_fields, label='encoded-')
+    _C03._mk_query_like('EXECUTE', _pv, prop='C46', opt_fn=_C03.statement_option_fields, label='encoded-')
+    _C03._mk_batch(_pv, prop='C46', label='encoded-', entries=(1,))
